@@ -140,6 +140,65 @@ func progNonFatal(T int16) *LazyProgram {
 	return p
 }
 
+// progNonFatalThenFatal: x := Int16(); x > 10 fails non-fatally and goes on; x > 1000 additionally dies in Fatalf at site A.
+// The failure found first (large x) is at the fatal site; smaller failing inputs are the non-fatal site.
+func progNonFatalThenFatal() *LazyProgram {
+	p := progThreshold(0)
+	p.Name = "int16: >10 Errorf, >1000 Errorf;Fatalf@A"
+	p.Base = func(ctx, d string) Beh {
+		var x int
+		fmt.Sscan(d, &x)
+		switch {
+		case x > 1000:
+			return BErrorfThenFatalA
+		case x > 10:
+			return BErrorf
+		}
+		return BPass
+	}
+	return p
+}
+
+// progCustomMayDrawNothing: n := IntRange(0,3); items := Custom(n draws) - for n == 0 the Custom function
+// returns without drawing, which rapid reports with an assertion panic (documented misuse, but a
+// deterministic function of the draws all the same); x >= 1000 fails at site A.
+func progCustomMayDrawNothing() *LazyProgram {
+	return &LazyProgram{
+		Name: "custom-may-draw-nothing",
+		Body: func(t *rapid.T, e *Env) {
+			ctxLive(t)
+			n := rapid.IntRange(0, 3).Draw(t, "n")
+			e.noteDraw("n", n)
+			e.cur.Draws = fmt.Sprint(n)
+			if n == 0 {
+				// the library's own assertion is this invocation's failure
+				e.cur.Signalled = append(e.cur.Signalled, BPanicStr)
+				e.cur.Decisions = append(e.cur.Decisions, Decision{"library", "library|group did not use any data", BPanicStr})
+			}
+			items := rapid.Custom(func(it *rapid.T) []int8 {
+				out := []int8{}
+				for i := 0; i < n; i++ {
+					out = append(out, rapid.Int8().Draw(it, "item"))
+				}
+				return out
+			}).Draw(t, "items")
+			e.noteDraw("items", items)
+			x := rapid.Int16().Draw(t, "x")
+			e.noteDraw("x", x)
+			e.cur.Draws = fmt.Sprint(n, items, x)
+			e.Do(t, "body", fmt.Sprint(x))
+		},
+		Base: func(ctx, d string) Beh {
+			var x int
+			fmt.Sscan(d, &x)
+			if x >= 1000 {
+				return BFatalA
+			}
+			return BPass
+		},
+	}
+}
+
 // progTwoSites: x, y := Uint8(), Uint8(); site A iff x >= 100 && y >= 10; site B iff x < 100 && y >= 50; panic iff x == 7 && y >= 3.
 func progTwoSites() *LazyProgram {
 	return &LazyProgram{
@@ -305,7 +364,8 @@ func progCustomCleanup() *LazyProgram {
 
 // AllFalsifying lists every failure kind of C02.
 var AllFalsifying = []Beh{BErrorf, BError, BFail, BFatalA, BFatal, BFailNowC, BPanicStr, BPanicErr, BPanicStruct, BPanicNil, BNilDeref, BIndexOOR,
-	BCleanupErrorf, BCleanupPanic, BCleanupFatal, BCleanupCleanupErrorf, BGoErrorf, BGoFail, BErrorfReject, BErrorEmpty, BErrorfEmpty, BCleanupErrorfSkip, BErrorfSkip}
+	BCleanupErrorf, BCleanupPanic, BCleanupFatal, BCleanupCleanupErrorf, BGoErrorf, BGoFail, BErrorfReject, BErrorEmpty, BErrorfEmpty,
+	BCleanupSkipThenFatal, BCleanupSkipThenPanic, BCleanupRejectThenFatal, BCleanupRejectThenPanic, BErrorfThenFatalA, BCleanupErrorfSkip, BErrorfSkip}
 
 // ExpectedText returns a substring the failure message must contain when b is reported for input msg.
 func ExpectedText(b Beh, msg string) string {
@@ -318,8 +378,10 @@ func ExpectedText(b Beh, msg string) string {
 		return "nonfatal:" + msg // fmt.Sprint puts no space between two string operands
 	case BFail:
 		return "(*T).Fail() called"
-	case BFatalA:
+	case BFatalA, BCleanupSkipThenFatal, BCleanupRejectThenFatal, BErrorfThenFatalA:
 		return "site A: " + msg
+	case BCleanupSkipThenPanic, BCleanupRejectThenPanic:
+		return "boom " + msg
 	case BFatalB:
 		return "site B: " + msg
 	case BFailNowC, BFailNowD:
